@@ -160,7 +160,7 @@ class Gen:
                                                                          "incs": incs}  # the writer strips networks from the embedded XML
                 files.append({"path": paths[i], "kind": "h5", "nets": [net], "emb": emb})
         if r.random() < 0.75:
-            entry = {"file": paths[0], "style": r.choice(["abs", "rel"])}
+            entry = {"file": paths[0], "style": r.choice(["abs", "rel", "rel", "rel_dot"])}
         else:
             bd = r.choice(dirs)
             x = r.random()
@@ -303,6 +303,21 @@ def fixed_cases(g):
             {"file": ["a.nml"], "style": "rel"}]
     out.append({"files": shared, "dirs": [[], ["s"]], "cwd": [], "cwds": [], "entry": ents[0], "entries": ents, "default_args": True,
                 "al": [], "shape": "diamond"})
+    # the same RELATIVE name read from different working directories in one process: two project trees with the same layout and
+    # different content; file entry ("model/main.nml") and string entry (base_path None: hrefs relative to the working directory)
+    proj = []
+    for k, pj in enumerate(("proj1", "proj2")):
+        proj += [{"path": [pj, "model", "main.nml"], "kind": "xml", "comps": [C("cells", "main", 10 * k + 1)], "incs": [H("parts", "cell.nml")]},
+                 {"path": [pj, "model", "parts", "cell.nml"], "kind": "xml", "comps": [C("cells", "part%d" % k, 10 * k + 2), C("ComponentType", "ct", 10 * k + 3, "n")],
+                  "incs": []}]
+    ents = []
+    for pj in ("proj1", "proj2", "proj1"):
+        ents.append({"file": [pj, "model", "main.nml"], "style": "rel", "cwd": [pj]})
+    for pj in ("proj2", "proj1"):
+        ents.append({"string": {"comps": [C("cells", "s", 30)], "incs": [H("model", "parts", "cell.nml")]}, "base": None, "base_style": "abs", "cwd": [pj]})
+    ents.append({"file": ["proj2", "model", "main.nml"], "style": "rel_dot", "cwd": ["proj2"]})
+    out.append({"files": proj, "dirs": [[], ["proj1"], ["proj2"], ["proj1", "model"], ["proj2", "model"], ["proj1", "model", "parts"], ["proj2", "model", "parts"]],
+                "cwd": ["proj1"], "cwds": [], "entry": ents[0], "entries": ents, "default_args": True, "al": [], "shape": "chain"})
     for c in out:
         c["names"] = names_of(c)
         c["opts"] = [False, True]
@@ -516,6 +531,20 @@ def run(ck):
         out = ck.impl("c06_impl.py", {"cases": cases[i:i + B], "recursion_limit": 400, "guard_s": 20}, timeout=1500)
         results += out["results"]
     # ---- correspondence: Coq computes the indices that differ
+    # the interpreter's configuration is not input: the first deterministic cases again under `python -O` and with another hash
+    # seed (set/dict iteration order) from another working directory - same outcomes, same merged lists in the same order
+    canon = lambda r: {k: r.get(k) for k in ("outcome", "lists", "incs_left", "loads", "already", "cwd", "opt", "ei")}
+    for label, kw in (("python-O", {"pyflags": ["-O"]}), ("PYTHONHASHSEED=3,cwd=/", {"extra_env": {"PYTHONHASHSEED": "3"}, "cwd": "/"})):
+        alt = ck.impl("c06_impl.py", {"cases": cases[:10], "recursion_limit": 400, "guard_s": 20}, timeout=900, **kw)["results"]
+        for case, a, b in zip(cases[:10], results[:10], alt):
+            for ra, rb in zip(a["runs"], b["runs"]):
+                ck.tally("other-interpreter-configuration")
+                if canon(ra) != canon(rb):
+                    key = [k for k in canon(ra) if canon(ra)[k] != canon(rb)[k]][0]
+                    ck.witness("C06:interpreter-configuration:%s:%s" % (label.split(",")[0], key),
+                               "under %s the read gives another %s than under the default interpreter configuration" % (label, key),
+                               input={"case": case, "cwd": ra["cwd"], "opt": ra["opt"]}, expected=canon(ra)[key], observed=canon(rb)[key])
+                    break
     # a case with several "entries" is a history of calls in one process (default arguments, no list passed); each call is
     # an evaluation of its own over the virtual case that has this entry
     real_cases, real_results = cases, results
